@@ -101,6 +101,7 @@ func runProperty(id string, c *Checker, tier string, seed int, repo, verif strin
 				l.Undecide("infrastructure", "checker-panic", "", fmt.Sprintf("checker panicked: %v", r))
 			}
 		}()
+		thoroughMode = tier == "thorough"
 		c.Run(p, l)
 		if tier == "thorough" {
 			runThorough(id, c, p, l, repo)
